@@ -35,6 +35,8 @@ type SpecFunc struct {
 	Ret    string
 	Body   ast.Expr
 	Text   string
+	Opaque bool   // pred: uninterpreted symbol + definitional axiom triggered on applications
+	Pkg    string // package in whose scope parameter types are resolved
 }
 
 type Contract struct {
@@ -57,6 +59,7 @@ type Contract struct {
 	File    string
 	// ghost results: name, sort kind, defining expression (evaluated at each return site)
 	GhostRet []GhostRet
+	Reveal   []string // opaque predicates unfolded in every obligation of this function
 }
 
 type GhostRet struct {
@@ -232,11 +235,11 @@ var clauseRe = regexp.MustCompile(`^(requires|ensures|modifies|invariant|assert|
 func parseGhostList(s string) ([]GhostVar, error) {
 	var out []GhostVar
 	for _, p := range strings.Split(s, ",") {
-		f := strings.Fields(p)
+		f := strings.SplitN(strings.TrimSpace(p), " ", 2)
 		if len(f) != 2 {
 			return nil, fmt.Errorf("bad ghost decl %q", p)
 		}
-		out = append(out, GhostVar{Name: f[0], Kind: f[1]})
+		out = append(out, GhostVar{Name: f[0], Kind: strings.TrimSpace(f[1])})
 	}
 	return out, nil
 }
@@ -276,8 +279,10 @@ func (cs *ContractSet) loadContractFile(path, pkgPath string) error {
 				return fail(fmt.Errorf("duplicate contract"))
 			}
 			cs.ByKey[pkgPath+"."+key] = cur
-		case strings.HasPrefix(t, "spec "):
-			// spec name(p kind, ...) ret = body
+		case strings.HasPrefix(t, "spec "), strings.HasPrefix(t, "pred "):
+			// spec name(p kind, ...) ret = body        (macro)
+			// pred name(p kind, ...) = body             (opaque predicate with definitional axiom)
+			isPred := strings.HasPrefix(t, "pred ")
 			rest := strings.TrimSpace(t[5:])
 			eq := strings.Index(rest, " = ")
 			if eq < 0 {
@@ -289,7 +294,10 @@ func (cs *ContractSet) loadContractFile(path, pkgPath string) error {
 			if op < 0 || cp < op {
 				return fail(fmt.Errorf("bad spec head"))
 			}
-			sf := &SpecFunc{Name: strings.TrimSpace(head[:op]), Ret: strings.TrimSpace(head[cp+1:]), Text: body}
+			sf := &SpecFunc{Name: strings.TrimSpace(head[:op]), Ret: strings.TrimSpace(head[cp+1:]), Text: body, Opaque: isPred, Pkg: pkgPath}
+			if isPred {
+				sf.Ret = "bool"
+			}
 			if strings.TrimSpace(head[op+1:cp]) != "" {
 				ps, err := parseGhostList(head[op+1 : cp])
 				if err != nil {
@@ -330,6 +338,8 @@ func (cs *ContractSet) loadContractFile(path, pkgPath string) error {
 					return fail(err)
 				}
 				cur.GhostRet = append(cur.GhostRet, GhostRet{Name: f[0], Kind: f[1], Expr: e, Text: rest[eq+1:]})
+			case strings.HasPrefix(t, "reveal "):
+				cur.Reveal = append(cur.Reveal, strings.Fields(t[7:])...)
 			case t == "trusted":
 				cur.Trusted = true
 			case t == "pure":
@@ -394,9 +404,12 @@ func (cs *ContractSet) loadContractFile(path, pkgPath string) error {
 				} else {
 					return fail(fmt.Errorf("bad loop directive"))
 				}
-			case strings.HasPrefix(t, "at "):
-				// at label assert expr
-				f := strings.SplitN(strings.TrimSpace(t[3:]), " ", 2)
+			case strings.HasPrefix(t, "at "), strings.HasPrefix(t, "after "):
+				// after callee#k assert expr  : proved, then assumed, after the statement containing that call
+				f := strings.SplitN(strings.TrimSpace(t[strings.Index(t, " ")+1:]), " ", 2)
+				if len(f) == 2 && !strings.Contains(f[0], "#") {
+					f[0] += "#0"
+				}
 				if len(f) < 2 {
 					return fail(fmt.Errorf("bad at"))
 				}
